@@ -330,10 +330,12 @@ def equality_route(F, rep, rule="C05.equality-route"):
         l = op_local(c.args[0]) if c.args else None
         oc = rules.origin_calls(ng, l, transparent=rules.TRANSPARENT | {rules.TRY_BRANCH, "core::option::Option::unwrap"}) if l is not None else []
         recv_ok = recv_ok or any(x in top for x in oc)
+    bypass = [b for b in rules.ok_return_blocks(ng) if not rules.call_dominates(ng, ncalls, b)]
+    own += bypass
     okn = bool(ncalls) and recv_ok and not own and all(c.target is not None and any(
         k.matches(rules.TRY_BRANCH) and op_local(k.args[0]) == c.dst["l"] for k in ng.calls()) for c in ncalls)
     rep.ob(rule, "`neg` negates the top operand with Primitive::negate and hands its failure on", "ok" if okn else "violated",
-           "" if okn else "%d negate call(s), receiver is the top operand: %s, own arithmetic in the handler: %d" % (len(ncalls), recv_ok, len(own)), ng.span, fn=ng.path,
+           "" if okn else "%d negate call(s), receiver is the top operand: %s, own arithmetic / successful returns that bypass negate: %d" % (len(ncalls), recv_ok, len(own)), ng.span, fn=ng.path,
            key=rule + "|neg")
     # (2) who may call the structural equality
     ALLOWED = {
